@@ -173,6 +173,7 @@ def run(params):
     cmds = []
     stop_task = None
     stop_pt = None
+    stop_pt2 = None
     if scen == 'stop_point':
         stop_pt = rng.choice(pts[:-1] or pts)
         cmds.append({'incarnation': 0, 'iter': it, 'slot': rng.randint(0, 1),
@@ -183,9 +184,20 @@ def run(params):
             (t_, p_) for t_ in prog.tasks for p_ in base.model._valid[t_])
         t, p = rng.choice(lb)
         stop_task = (t, p)
-        cmds.append({'incarnation': 0, 'iter': rng.randint(1, 3), 'slot': 0,
+        it_t = rng.randint(1, 3)
+        cmds.append({'incarnation': 0, 'iter': it_t, 'slot': 0,
                      'name': 'stop', 'kwargs': {
                          'mode': None, 'task': prog.iid(t, p)}})
+        # half of the cases: a stop point beyond the stop task as well; when
+        # the stop task ends the run the point has not been reached and
+        # must survive in the DB
+        r2 = random.Random(derive_seed(seed, 'c43-stop-point-too'))
+        later = [q for q in pts if q > p]
+        if later and r2.random() < 0.5:
+            stop_pt2 = r2.choice(later)
+            cmds.append({'incarnation': 0, 'iter': it_t, 'slot': 1,
+                         'name': 'stop', 'kwargs': {
+                             'mode': None, 'cycle_point': prog.pstr(stop_pt2)}})
     else:
         mode = {'clean': StopMode.REQUEST_CLEAN, 'now': StopMode.REQUEST_NOW,
                 'kill': StopMode.REQUEST_KILL,
@@ -316,6 +328,18 @@ def run(params):
         elif jobs and base.stops[-1] == 'stop:AUTOMATIC' and (
                 res.stops[0] != 'stop:AUTOMATIC'):
             res.violate('no_shutdown_after_stop_task', {'stops': res.stops})
+        msgs = [m for _l, m in res.log]
+        if stop_pt2 is not None and res.stops[0] == 'stop:AUTOMATIC' and any(
+                m.startswith('Setting stop point') for m in msgs) and any(
+                m.startswith('Stop task ') and m.endswith(' finished')
+                for m in msgs) and not set_during_shutdown(res):
+            # the stop task ended the run: the stop point was not reached
+            if first_stopcp is None:
+                res.violate('stop_point_forgotten_before_reached', {
+                    'stop_task': prog.iid(*stop_task),
+                    'stop_point': prog.pstr(stop_pt2)})
+            else:
+                sim.probe('stop_point_kept_when_stop_task_ended_run')
     elif cmd_done and scen in ('clean', 'now', 'nownow', 'kill'):
         if first_reason.startswith('stop:REQUEST') and first_snap:
             act = {t: d['status'] for t, d in first_snap['tasks'].items()
